@@ -100,7 +100,19 @@ Definition honest_run (chk : bool) (A a Btarget B' b : N) : bool * option N :=
 
 (* ---------- correspondence ---------- *)
 
+(* ---- contact_request_manager.go handleIncomingRequest: after the handshake the requester sends
+   its contact card; the request is recorded for the key the handshake proved, provided the card
+   names that very key and is well formed (the rendezvous seed may be missing) ---- *)
+Inductive card := Card (pk : N) (format_ok : bool) | NoCard.
+
+Definition incoming (self : N) (hs : option N) (c : card) : option N :=
+  match hs, c with
+  | Some A, Card pk true => if (pk =? A) && negb (A =? self) then Some A else None
+  | _, _ => None
+  end.
+
 Inductive case :=
+| CIncoming (self : N) (hs : option N) (c : card) (obs : option N)
 | CHonest (chk : bool) (A a Btarget B' b : N) (obs_req : bool) (obs_resp : option N)
 | CResp (chk : bool) (B b : N) (X : point) (F : aframe) (ack : option bool) (obs : option N)
 | CReq (chk : bool) (A a B : N) (Y : point) (G : cframe) (obs : bool).
@@ -110,6 +122,7 @@ Definition optN_eqb (a b : option N) : bool :=
 
 Definition check_case (c : case) : bool :=
   match c with
+  | CIncoming self hs c obs => optN_eqb (incoming self hs c) obs
   | CHonest chk A a Bt B' b o1 o2 =>
     let '(r1, r2) := honest_run chk A a Bt B' b in Bool.eqb r1 o1 && optN_eqb r2 o2
   | CResp chk B b X F ack obs => optN_eqb (fst (responder chk B b X F ack)) obs
